@@ -136,6 +136,11 @@ type Node struct {
 
 	Ticks int // own tick count (whole life)
 
+	// SnapFloor: index of the newest snapshot raft handed to this incarnation
+	// for installation. Apply work at or below it is stale: the snapshot
+	// supersedes it (and raft's configuration already is the snapshot's).
+	SnapFloor uint64
+
 	// SlowAppend/SlowApply: the node's storage threads are stalled (slow
 	// disk / slow state machine); Service leaves their queues alone.
 	SlowAppend, SlowApply bool
@@ -193,6 +198,10 @@ type Sim struct {
 
 	// FailFast: panic(*Violation) at the first violation of an owned property.
 	FailFast bool
+
+	// OutOn: record every observable output (C19).
+	OutOn bool
+	Out   []OutEvent
 
 	// Exclude lists known-finding signatures excluded by construction.
 	Exclude map[string]bool
@@ -309,6 +318,7 @@ func (s *Sim) start(n *Node, applied uint64) {
 	n.Rd = raft.Ready{}
 	n.AppendQ, n.ApplyQ = nil, nil
 	n.SelfQ = [2][]*pb.Message{}
+	n.SnapFloor = 0
 	// ConfState as of Applied.
 	if p, ok := n.SM.At[applied]; ok {
 		n.Disk.InitCS = p.Conf.ConfState()
@@ -386,6 +396,7 @@ func (s *Sim) touch(n *Node, c *Cause, f func()) bool {
 		return false
 	}
 	post := n.RN.VerifState()
+	s.recordState(n, &post, c.Kind, c.Err)
 	s.Mon.afterTouch(n, &pre, &post, c)
 	return true
 }
